@@ -198,7 +198,7 @@ def main(a):
         if k % 41 == 0 and len(samples) < 5:
             samples.append({"ops": c[3][:10], "impls": len(c[0]), "expected": exp[-80:]})
         if o[0] != exp or o[1] != cls:
-            if SELF_FID in listed0 and o[1] == "ok" and any(impl_style(i, j, *t) == 2 for (i, j), t in c[0].items()) \
+            if SELF_FID in listed0 and o[1] == cls and any(impl_style(i, j, *t) == 2 for (i, j), t in c[0].items()) \
                     and any(x.startswith("B ") for x in c[3]):
                 selfknown += 1
                 continue
